@@ -15,7 +15,8 @@ Forms == <<"var", "lit", "binary", "neg", "call", "callarg", "assign", "chain", 
 Types == <<"int", "long", "ptr", "float", "double", "ldouble", "small", "big">>
 Ctxs  == <<"exprstmt", "commalhs", "forinc", "condarm", "condarmvoid", "logand", "logor", "voidcast", "arg", "arg7", "oddnest", "vararg",
            "init", "return", "ifcond", "assignrhs", "stmtexprdiscard", "stmtexprvalue",
-           "ldpendcomma", "ldpendstmtexpr", "ldpendvoid">>
+           "ldpendcomma", "ldpendstmtexpr", "ldpendvoid",
+           "condmixthen", "condmixelse", "whilecond", "forcond", "docond">>
 
 IsStruct(t) == t \in {"small", "big"}
 Scalar(t)   == ~IsStruct(t)
@@ -24,7 +25,7 @@ Scalar(t)   == ~IsStruct(t)
 Valid(f, t, c) ==
   /\ (IsStruct(t) => f \in {"var", "call", "callarg", "assign", "chain", "cond", "comma", "member", "deref", "index", "stmtexpr"})
   /\ (t = "ptr" => f \notin {"neg", "lit"})
-  /\ (c \in {"logand", "logor", "ifcond"} => Scalar(t))
+  /\ (c \in {"logand", "logor", "ifcond", "whilecond", "forcond", "docond"} => Scalar(t))
   /\ (c = "vararg" => t \notin {"float"})        \* a float argument is promoted: covered by double
   \* "arg7": the value is the 8th argument after seven ints, so one 8-byte word (the 7th int) is passed on
   \* the stack next to it: an odd number of pending words while the argument itself is pushed
@@ -33,10 +34,16 @@ Valid(f, t, c) ==
    spilled to the stack with its own rsp arithmetic), in every context - in particular with an even and
    with an odd number of 8-byte temporaries pending ("oddnest": the call is the left operand of `+`,
    evaluated after the right operand has been pushed).                                               *)
-Always(f, t, c) == t = "ldouble" /\ (f = "callarg" \/ c \in {"arg", "arg7", "oddnest", "vararg", "ldpendcomma", "ldpendstmtexpr", "ldpendvoid"})
+Always(f, t, c) == t = "ldouble" /\ (f = "callarg" \/ c \in {"arg", "arg7", "oddnest", "vararg", "ldpendcomma", "ldpendstmtexpr", "ldpendvoid",
+                                                              "condmixthen", "condmixelse"})
 
 (* "ldpend...": the value is discarded while a long double operand of an enclosing operation is pending on
    the x87 stack underneath it:  LA + ((E), LB),  LA * ({ E; LB; }),  LA < ((void)(E), LB).              *)
+(* "condmixthen" / "condmixelse": `c ? (E) : (void)0` and `c ? (void)0 : (E)` - a conditional expression with ONE
+   void operand has type void (accepted by chibicc and gcc as an extension of 6.5.15p3): the value of the other
+   operand is evaluated and dropped, so it must not stay anywhere.
+   "whilecond" / "forcond" / "docond": the value is the controlling expression of an iteration statement
+   (6.8.5: compared with 0 and gone), as "ifcond" is for the selection statement.                          *)
 VARIABLES fi, ti, ci, out
 vars == <<fi, ti, ci, out>>
 
